@@ -477,12 +477,187 @@ pub fn c05(tier: Tier) -> Result<Report, String> {
     driver::run_plan(plan)
 }
 
+/// Evaluate a `fail_*` expectation string against an outcome.
+fn check_expectations(expect: &str, got: &Outcome) -> Option<String> {
+    let get = |path: &str| -> Option<String> { got.procs.get(path.trim()).cloned() };
+    for clause in expect.split("; ") {
+        let alts: Vec<&str> = clause.split(" || ").collect();
+        let mut ok = false;
+        let mut why = vec![];
+        for alt in alts {
+            let alt = alt.trim();
+            if let Some((a, b)) = alt.split_once("==") {
+                let (va, vb) = (get(a), get(b));
+                if va.is_some() && va == vb {
+                    ok = true;
+                } else {
+                    why.push(format!("{} is {:?} but {} is {:?}", a.trim(), va, b.trim(), vb));
+                }
+            } else if let Some((a, want)) = alt.split_once('=') {
+                let va = get(a);
+                let want = want.trim();
+                let matches = match &va {
+                    Some(v) if want == "ERR" => v.starts_with("ERR "),
+                    Some(v) => v == want,
+                    None => false,
+                };
+                if matches {
+                    ok = true;
+                } else {
+                    why.push(format!("{} is {:?}, expected {}", a.trim(), va, want));
+                }
+            }
+        }
+        if !ok {
+            return Some(why.join(" and "));
+        }
+    }
+    None
+}
+
+fn c15_oracle(sc: &Scenario, reference: &Outcome, got: &Outcome) -> Option<(String, String)> {
+    if let Some(expect) = &sc.expect {
+        if let Some(why) = check_expectations(expect, got) {
+            return Some((
+                "I-contain".to_string(),
+                format!("{} (per-process results {:?})", why, got.procs),
+            ));
+        }
+    }
+    if sc.confluent && got.procs != reference.procs {
+        return Some((
+            "I-contain".to_string(),
+            format!("per-process results {:?} differ from the reference run {:?}", got.procs, reference.procs),
+        ));
+    }
+    None
+}
+
+fn fail_monitor(sc: &Scenario, _: &Config) -> Box<dyn Monitor> {
+    Box::new(StdMonitor {
+        conserve: true,
+        expect_entry_result: true,
+        ..Default::default()
+    })
+}
+
+pub fn c15(tier: Tier) -> Result<Report, String> {
+    let thorough = tier == Tier::Thorough;
+    let plan = Plan {
+        property: "C15",
+        scenarios: scenarios::fail_all(),
+        configs: Box::new(move |sc| {
+            if thorough {
+                grid(sc, &[1, 2, 3], &[1, 2, 5, 1000], true)
+            } else {
+                grid(sc, &[1, 2, 3], &[1, 1000], true)
+            }
+        }),
+        bound: if thorough { 3 } else { 2 },
+        bound_for: Some(Box::new(move |_sc, cfg| if thorough { 3 } else { 2 })),
+        explicit: Box::new(move |_sc, cfg| {
+            if thorough && cfg.quantum >= 5 && cfg.workers <= 2 {
+                Some(300_000)
+            } else {
+                None
+            }
+        }),
+        monitor: &fail_monitor,
+        oracle: Some(&c15_oracle),
+        wall_budget_s: if thorough { 840.0 } else { 45.0 },
+        assumptions: ASSUME_A.iter().map(|s| s.to_string()).collect(),
+        explanation: "A failing operation (division by zero, out-of-range slice, send/spawn/select inside a receive filter) placed in each process role (awaited child, unawaited child, awaited before/after the failure, two awaiters, chain of awaiters, raced against a live process, target of later sends), under every schedule within the deviation bound. Oracle at quiescence: every process that awaits a failed process has exactly that error, every process that does not has its normal result (explicit per-scenario expectations plus equality with the reference run for confluent scenarios); after every action: no panic, no Err from Worker::step/Environment::step; no hang; no lost completion.".to_string(),
+    };
+    driver::run_plan(plan)
+}
+
+struct ResMon {
+    std: StdMonitor,
+    res: super::resmon::ResourceMonitor,
+}
+
+impl Monitor for ResMon {
+    fn after(&mut self, sys: &mut super::system::System, act: &super::system::Act) -> Vec<(String, String)> {
+        let mut out = self.std.after(sys, act);
+        if out.is_empty() {
+            out.extend(self.res.after(sys, act));
+        }
+        out
+    }
+    fn terminal(&mut self, sys: &mut super::system::System, horizon_hit: bool) -> Vec<(String, String)> {
+        let mut out = self.std.terminal(sys, horizon_hit);
+        if out.is_empty() && !horizon_hit {
+            out.extend(self.res.terminal(sys));
+        }
+        out
+    }
+}
+
+fn res_monitor(_sc: &Scenario, _: &Config) -> Box<dyn Monitor> {
+    Box::new(ResMon {
+        std: StdMonitor {
+            expect_entry_result: true,
+            ..Default::default()
+        },
+        res: Default::default(),
+    })
+}
+
+pub fn c14(tier: Tier) -> Result<Report, String> {
+    let thorough = tier == Tier::Thorough;
+    let plan = Plan {
+        property: "C14",
+        scenarios: scenarios::res_all(),
+        configs: Box::new(move |sc| {
+            let mut v = vec![];
+            let ws: &[usize] = if thorough { &[1, 2, 3] } else { &[1, 2] };
+            let qs: &[usize] = if thorough { &[1, 2, 1000] } else { &[1, 1000] };
+            for &w in ws {
+                for &q in qs {
+                    for defer in [false, true] {
+                        v.push(Config {
+                            workers: w,
+                            quantum: q,
+                            request_early: true,
+                            io: true,
+                            defer_effects: defer,
+                        });
+                    }
+                }
+            }
+            v
+        }),
+        bound: if thorough { 3 } else { 2 },
+        bound_for: Some(Box::new(move |_sc, cfg| if thorough { if cfg.quantum >= 1000 { 4 } else { 3 } } else { 2 })),
+        explicit: Box::new(move |_sc, cfg| {
+            if thorough && cfg.quantum >= 1000 && cfg.workers <= 2 {
+                Some(300_000)
+            } else {
+                None
+            }
+        }),
+        monitor: &res_monitor,
+        oracle: None,
+        wall_budget_s: if thorough { 840.0 } else { 45.0 },
+        assumptions: {
+            let mut a: Vec<String> = ASSUME_A.iter().map(|s| s.to_string()).collect();
+            a.push("io_uring and the native backend's registry are replaced by an instrumented in-memory EffectBackend (files as byte vectors) that logs every execute(pid, effect) and close_resource(id); the ownership logic of environment.rs and NativeEffect::resource_id are the real code".to_string());
+            a.push("a close of an already closed id is a no-op by the backend contract and is not counted as a second close".to_string());
+            a
+        },
+        explanation: "Resource scenarios (open/use/send bare or nested/pass as spawn argument/capture/leave in mailbox/explicit close/two resources/two awaiters/owner awaited or not/entry process as owner/send to a terminated process) over the real file builtins and the real ownership logic, under every schedule within the deviation bound, with effect completion immediate or deferred (scheduler-controlled). After every environment step the backend calls are compared with the calls a host-side ownership model allows (owner = creator until the handle is sent or passed at spawn, then the recipient; a non-owner's operation must not reach the backend); runtime closes happen only for terminated owners and at most once; at quiescence every resource whose owner has terminated is closed.".to_string(),
+    };
+    driver::run_plan(plan)
+}
+
 pub fn monitor_for(property: &str) -> (&'static driver::MonitorFactory, Option<&'static driver::OutcomeOracle>) {
     match property {
         "C03" => (&std_monitor, Some(&c03_oracle)),
         "C04" => (&conserve_monitor, Some(&c04_oracle)),
         "C06" => (&heap_monitor, Some(&c06_oracle)),
         "C05" => (&select_monitor, Some(&c05_oracle)),
+        "C15" => (&fail_monitor, Some(&c15_oracle)),
+        "C14" => (&res_monitor, None),
         _ => (&std_monitor, None),
     }
 }
